@@ -2,7 +2,7 @@
    PARTIAL: these theorems are about the protocol (who may take a step); that tokio/std deliver the
    wake-up and schedule the woken thread in finite time is outside the model. *)
 From Coq Require Import List Arith ZArith.
-From LK Require Import AList Model Observe Inv StepInv PropLemmas DropInv Drain.
+From LK Require Import AList Model Observe Inv StepInv PropLemmas DropInv Drain Terminate.
 Import ListNotations.
 
 (* Every in-flight call that is not waiting for a per-key mutex (and is not running user code) can take
@@ -94,6 +94,18 @@ Theorem C03_never_stuck : forall c s,
   reachable c s -> (s_ops s <> [] \/ s_guards s <> []) ->
   exists l s' o, drain_ok s l /\ step c s l = ROk s' o.
 Proof. exact never_stuck. Qed.
+
+(* NO LIVELOCK EITHER: every run of the draining client is finite, whatever the scheduler does and in whatever
+   order the client drops its guards (drain_step: one drain_ok move from a reachable state) -- every such
+   move decreases a lexicographic measure (Terminate.v) --, and the only state in which no move is left is the
+   state of rest.  Once clients stop asking for new locks and keep releasing what they hold, every call in
+   flight completes. *)
+Theorem C03_draining_always_terminates : forall c s, reachable c s -> Acc (drain_step c) s.
+Proof. exact draining_terminates. Qed.
+
+Theorem C03_draining_ends_at_rest : forall c s,
+  reachable c s -> (forall s2, ~ drain_step c s2 s) -> s_ops s = [] /\ s_guards s = [].
+Proof. exact draining_ends_at_rest. Qed.
 
 (* non-vacuity of the draining theorem: a reachable state with a holder, an async waiter queued behind it,
    a stream pending on the same key and a soft-limited call inside its callback -- and a draining run from it *)
